@@ -616,31 +616,54 @@ class NoneClient(BaseClient):
             return "self." + e.attr
         return None
 
+    def _refine(self, w, test, branch):
+        r = self.assume(test, branch, frozenset({frozenset(w)}))
+        return set(next(iter(r))) if r else set(w)
+
     def uses(self, node, w):
-        """names that may be None and are used in arithmetic / calls (other than plain returns, stores, None tests)"""
+        """names that may be None and are used in arithmetic / calls (other than plain returns, stores, None tests); conditional
+        expressions and short-circuit operators guard their later operands (`None if x is None else x * k`, `x is not None and f(x)`)"""
         bad = []
-        for x in ast.walk(node):
-            if isinstance(x, (ast.BinOp, ast.UnaryOp)) and not (isinstance(x, ast.UnaryOp) and isinstance(x.op, ast.Not)):
-                for y in ([x.left, x.right] if isinstance(x, ast.BinOp) else [x.operand]):
-                    k = self._key(y)
-                    if k and ("N", k) in w:
-                        bad.append((k, x))
-            if isinstance(x, ast.Call) and not is_validator_name(call_name(x)) and call_name(x) not in ("isinstance", "getattr", "hasattr", "print", "repr", "str"):
-                for y in list(x.args) + [k.value for k in x.keywords]:
-                    k = self._key(y)
-                    if k and ("N", k) in w:
-                        bad.append((k, x))
-            if isinstance(x, ast.Compare) and not any(isinstance(c, ast.Constant) and c.value is None for c in x.comparators):
-                for y in [x.left] + list(x.comparators):
-                    k = self._key(y)
-                    if k and ("N", k) in w:
-                        bad.append((k, x))
-            if isinstance(x, (ast.Subscript, ast.Attribute)) and isinstance(x.ctx, ast.Load) and isinstance(x.value, (ast.Name, ast.Attribute)):
-                k = self._key(x.value)
-                if k and ("N", k) in w and not (isinstance(x, ast.Attribute) and k.startswith("self.") is False and x.value.id == "self"):
-                    if isinstance(x, ast.Subscript) or k != "self":
-                        bad.append((k, x))
+
+        def rec(x, w):
+            if isinstance(x, ast.IfExp):
+                rec(x.test, w)
+                rec(x.body, self._refine(w, x.test, True))
+                rec(x.orelse, self._refine(w, x.test, False))
+                return
+            if isinstance(x, ast.BoolOp):
+                ww = w
+                for v in x.values:
+                    rec(v, ww)
+                    ww = self._refine(ww, v, isinstance(x.op, ast.And))
+                return
+            self._check(x, w, bad)
+            for ch in ast.iter_child_nodes(x):
+                rec(ch, w)
+        rec(node, set(w))
         return bad
+
+    def _check(self, x, w, bad):
+        if isinstance(x, (ast.BinOp, ast.UnaryOp)) and not (isinstance(x, ast.UnaryOp) and isinstance(x.op, ast.Not)):
+            for y in ([x.left, x.right] if isinstance(x, ast.BinOp) else [x.operand]):
+                k = self._key(y)
+                if k and ("N", k) in w:
+                    bad.append((k, x))
+        if isinstance(x, ast.Call) and not is_validator_name(call_name(x)) and call_name(x) not in ("isinstance", "getattr", "hasattr", "print", "repr", "str"):
+            for y in list(x.args) + [k.value for k in x.keywords]:
+                k = self._key(y)
+                if k and ("N", k) in w:
+                    bad.append((k, x))
+        if isinstance(x, ast.Compare) and not any(isinstance(c, ast.Constant) and c.value is None for c in x.comparators):
+            for y in [x.left] + list(x.comparators):
+                k = self._key(y)
+                if k and ("N", k) in w:
+                    bad.append((k, x))
+        if isinstance(x, (ast.Subscript, ast.Attribute)) and isinstance(x.ctx, ast.Load) and isinstance(x.value, (ast.Name, ast.Attribute)):
+            k = self._key(x.value)
+            if k and ("N", k) in w and not (isinstance(x, ast.Attribute) and k.startswith("self.") is False and x.value.id == "self"):
+                if isinstance(x, ast.Subscript) or k != "self":
+                    bad.append((k, x))
 
     def transfer(self, s, S):
         out = set()
@@ -693,10 +716,143 @@ def none_flow(repo, res, rule="S5", only_classes=None):
     res.analysed[f"{rule}_setters"] = n
 
 
+IC = "magpylib._src.input_checks"
+REPR_WRAPPERS = {"from_quat"}       # R.from_quat(validated quaternions): change of representation, not of value
+
+
+def s11(repo, res):
+    """S11 read-back fidelity (structural part): a setter that validates its argument with a format validator stores the validator's
+    result itself in the property's own attribute - not a value re-derived from it by arithmetic or obtained back through another
+    property (unit round trips such as (m*mu0)/mu0 are one ulp off for most values)."""
+    n = 0
+    for c in repo.cls_by_key.values():
+        if not c.mod.name.startswith(OBJ_PKG):
+            continue
+        for name, fn in c.setters.items():
+            ps = [a.arg for a in fn.args.args if a.arg != "self"]
+            if not ps:
+                continue
+            p = ps[0]
+            vcalls = [x for x in ast.walk(fn) if isinstance(x, ast.Call) and is_validator_name(call_name(x)) and call_name(x).startswith("check_format")
+                      and any(isinstance(a, ast.Name) and a.id == p for a in list(x.args) + [k.value for k in x.keywords])]
+            if not vcalls:
+                continue
+            n += 1
+            validated = {p}
+            for s_ in ast.walk(fn):
+                if isinstance(s_, ast.Assign) and any(v is s_.value for v in vcalls):
+                    for t in s_.targets:
+                        validated |= {x.id for x in ast.walk(t) if isinstance(x, ast.Name)}
+            own = f"_{name}"
+            stores = [s_ for s_ in ast.walk(fn) if isinstance(s_, ast.Assign) and any(isinstance(t, ast.Attribute) and t.attr == own and isinstance(t.value, ast.Name)
+                                                                                       and t.value.id == "self" for t in s_.targets)]
+            qn = f"{c.name}.{name} (setter)"
+            bad = None
+
+            def faithful(v):
+                if isinstance(v, ast.Constant) and v.value is None:
+                    return True
+                if isinstance(v, ast.Name):
+                    return v.id in validated
+                if isinstance(v, ast.Call):
+                    if any(v is vc for vc in vcalls):
+                        return True
+                    if call_name(v) in REPR_WRAPPERS and len(v.args) == 1:
+                        return faithful(v.args[0])
+                return False
+            why = ""
+            if not stores:
+                bad, why = fn, f"never stores `self.{own}` itself: the value read back is whatever another setter re-derives"
+            for s_ in stores:
+                if not faithful(s_.value):
+                    bad, why = s_, f"`self.{own}` receives `{norm(s_.value)}`, not the validated value"
+            res.ob(f"S11:{qn}", bad is None, {"rule": "S11", "setter": qn, "validated_names": sorted(validated), "own_stores": [norm(x) for x in stores]})
+            if bad is not None:
+                res.add(Finding("S11", c.mod.rel, qn, bad if bad is not fn else f"setter of {name}", f"{why}; a valid value is not read back equal "
+                                "(e.g. a unit round trip (m*mu0)/mu0 differs in the last bit)", getattr(bad, "lineno", None)))
+    res.require(n >= 12, f"S11: only {n} validating setters found (15 confirmed by hand)")
+    res.analysed["S11_setters"] = n
+
+
+def s12(repo, res):
+    """S12 the translation of conversion failures into the library's input error is total: a `try` around np.array(<user value>,
+    dtype=float) whose handler raises MagpylibBadUserInput catches Exception (OverflowError for huge ints, anything a user object's
+    __float__/__array__ raises), not a hand-picked list of types"""
+    m = repo.mod(IC)
+    n = 0
+    for q, fn in m.funcs.items():
+        for t in ast.walk(fn):
+            if not isinstance(t, ast.Try):
+                continue
+            conv = [c for b in t.body for c in ast.walk(b) if isinstance(c, ast.Call) and call_name(c) in ("array", "asarray")
+                    and any(k.arg == "dtype" for k in c.keywords)]
+            if not conv:
+                continue
+            for h in t.handlers:
+                # the handler itself translates (a handler that merely falls through to another input form is not an instance)
+                raises = [r for r in h.body if isinstance(r, ast.Raise) and r.exc is not None and "MagpylibBadUserInput" in ast.unparse(r.exc)]
+                if not raises:
+                    continue
+                n += 1
+                total = h.type is None or (isinstance(h.type, ast.Name) and h.type.id in ("Exception", "BaseException"))
+                res.ob(f"S12:{q}:{norm(conv[0])}", total, {"rule": "S12", "function": q, "conversion": norm(conv[0]), "handler": ast.unparse(h.type) if h.type else "bare"})
+                if not total:
+                    res.add(Finding("S12", m.rel, q, h, f"conversion failures other than {ast.unparse(h.type)} (OverflowError for 10**400, errors raised by a user "
+                                    "object's __float__) escape as foreign exceptions instead of the library's input error", h.lineno))
+    res.require(n >= 2, f"S12: only {n} translating handlers found (2 confirmed by hand: make_float_array, check_format_input_observers)")
+
+
+def s13(repo, res):
+    """S13 probe adequacy in validate_field_func: the user callable is probed with an (n,3) observer literal with n >= 2 and n != 3 and
+    its output shape is compared with exactly that shape; with n = 1 a callable returning a constant (1,3) row passes and later
+    broadcasts silently over all observers"""
+    m = repo.mod(IC)
+    fn = m.funcs.get("validate_field_func")
+    res.require(fn is not None, "anchor vanished: validate_field_func")
+    p = fn.args.args[0].arg
+    binds = {s_.targets[0].id: s_.value for s_ in ast.walk(fn) if isinstance(s_, ast.Assign) and len(s_.targets) == 1 and isinstance(s_.targets[0], ast.Name)}
+
+    def shape_of_lit(e):
+        if isinstance(e, ast.Name) and e.id in binds:
+            e = binds[e.id]
+        if isinstance(e, ast.Call) and call_name(e) in ("array", "asarray") and e.args:
+            e = e.args[0]
+        try:
+            v = ast.literal_eval(e)
+        except Exception:
+            return None
+        shp = []
+        while isinstance(v, (list, tuple)):
+            shp.append(len(v)); v = v[0] if v else None
+        return tuple(shp)
+    probes = [c for c in ast.walk(fn) if isinstance(c, ast.Call) and isinstance(c.func, ast.Name) and c.func.id == p and len(c.args) >= 2]
+    res.require(probes, "anchor vanished: probe call of the user callable in validate_field_func")
+    for c in probes:
+        shp = shape_of_lit(c.args[1])
+        ok = shp is not None and len(shp) == 2 and shp[1] == 3 and shp[0] >= 2 and shp[0] != 3
+        cmps = [x for x in ast.walk(fn) if isinstance(x, ast.Compare) and isinstance(x.left, ast.Attribute) and x.left.attr == "shape"]
+        same = []
+        for x in cmps:
+            r = x.comparators[0]
+            rs = shape_of_lit(r) if not isinstance(r, ast.Attribute) else (shp if ast.unparse(r.value) == ast.unparse(c.args[1]) else None)
+            if isinstance(r, ast.Tuple):
+                try: rs = tuple(ast.literal_eval(r))
+                except Exception: rs = None
+            same.append(rs == shp)
+        ok2 = bool(cmps) and all(same)
+        res.ob(f"S13:{norm(c)}", ok and ok2, {"rule": "S13", "probe": norm(c), "probe_shape": shp, "shape_comparisons": [norm(x) for x in cmps]})
+        if not ok:
+            res.add(Finding("S13", m.rel, "validate_field_func", c, f"the probe observers have shape {shp}: with fewer than two rows (or exactly three) an output of "
+                            "fixed or transposed shape is indistinguishable from a correct (n,3) result and is accepted", c.lineno))
+        elif not ok2:
+            res.add(Finding("S13", m.rel, "validate_field_func", cmps[0] if cmps else c, f"the output shape is not compared with the probe's shape {shp}", (cmps[0] if cmps else c).lineno))
+
+
 def run(repo, res, tier):
     res.rules = ["S1 validate-before-store", "S2 independent copy", "S3 documented shape vs configuration", "S4 constraints consulted on accepting paths",
                  "S5 None-flow", "S6 constructor = setter", "S8 relational constraints", "S9 rank/type gates",
-                 "S10 a membership-validated setter stores the value it tested"]
+                 "S10 a membership-validated setter stores the value it tested",
+                 "S11 validated value stored verbatim", "S12 total exception translation", "S13 field_func probe adequacy"]
     s1_s6(repo, res)
     s3(repo, res)
     s3b(repo, res)
@@ -704,6 +860,9 @@ def run(repo, res, tier):
     s9(repo, res)
     s4(repo, res)
     none_flow(repo, res)
+    s11(repo, res)
+    s12(repo, res)
+    s13(repo, res)
     import rules_domain
     n10 = rules_domain.checked_is_stored(repo, res, "S10")
     res.require(n10 >= 12, f"S10: only {n10} membership-validated setters found (16 confirmed by hand)")
